@@ -55,7 +55,10 @@ def run(ctx):
     r1.check(any(o.name == 'filter' and o.call.args and
                  isinstance(o.call.args[0], ast.Compare) and
                  isinstance(o.call.args[0].ops[0], (ast.Lt, ast.LtE)) and
-                 'last_heartbeat' in norm(o.call.args[0].left) and
+                 U.phas(U.inline_locals(q.node, o.call.args[0].left),
+                        '___.ActionExecution.last_heartbeat') and
+                 isinstance(U.inline_locals(q.node, o.call.args[0].left),
+                            ast.Attribute) and
                  dotted(o.call.args[0].comparators[0]) == 'expiration_time'
                  for o in alw),
              ctx.construct(q, extra='last_heartbeat < threshold'),
@@ -67,8 +70,10 @@ def run(ctx):
              ctx.construct(q, extra='sync only'),
              'asynchronous actions are not excluded on every path',
              ctx.loc(q))
-    r1.check(any(o.name == 'filter' and 'state == states.RUNNING' in
-                 o.args_text() for o in alw),
+    r1.check(any(o.name == 'filter' and len(o.call.args) == 1 and U.phas(
+        U.inline_locals(q.node, o.call.args[0]),
+        '___.ActionExecution.state == states.RUNNING') and
+        isinstance(o.call.args[0], ast.Compare) for o in alw),
              ctx.construct(q, extra='RUNNING only'),
              'finished actions are not excluded on every path', ctx.loc(q))
     he = prog.func(HC + '.handle_expired_actions')
